@@ -38,11 +38,11 @@ type mAttribute struct {
 	Values                 []mAttrValue
 }
 type mSession struct {
-	Create                                                            time.Time
-	Index, NameID, NameIDFormat, SubjectID                            string
-	Groups                                                            []string
+	Create                                                           time.Time
+	Index, NameID, NameIDFormat, SubjectID                           string
+	Groups                                                           []string
 	UserName, Email, CommonName, Surname, GivenName, ScopedAff, EPPN string
-	Custom                                                            []mAttribute
+	Custom                                                           []mAttribute
 }
 
 func (v mAttrValue) term() string {
@@ -73,15 +73,15 @@ func (s mSession) term() string {
 
 type mNameID struct{ Format, NameQualifier, SPNameQualifier, Value string }
 type mAssertion struct {
-	ID                                                        string
-	IssueInstant                                              time.Time
-	Issuer, IssuerFormat                                      string
-	NameID                                                    mNameID
+	ID                                                       string
+	IssueInstant                                             time.Time
+	Issuer, IssuerFormat                                     string
+	NameID                                                   mNameID
 	ConfMethod, ConfAddress, ConfInResponseTo, ConfRecipient string
-	ConfNOA, NotBefore, NOA, AuthnInstant                     time.Time
-	Audiences                                                 []string
-	SessionIndex, Locality, ClassRef                          string
-	Attributes                                                []mAttribute
+	ConfNOA, NotBefore, NOA, AuthnInstant                    time.Time
+	Audiences                                                []string
+	SessionIndex, Locality, ClassRef                         string
+	Attributes                                               []mAttribute
 }
 
 func (a mAssertion) term() string {
